@@ -83,6 +83,8 @@ def gen_case(rng, nthreads, maxcalls, hsm_extras=0.7, p_dyn=0.0):
     tags = [0]
     for _ in range(nthreads):
         case['threads'].append([gen_call(rng, case, tags) for _ in range(rng.randint(1, maxcalls))])
+    # the threads run on a machine that was pickled / deep-copied and restored before they start
+    case['restored'] = rng.choice([None, None, None, 'pickle', 'deepcopy'])
     case['dyn'] = []
     if case['cls'] != 'hsmg' and rng.random() < p_dyn:
         add_dynamic(rng, case, tags)
@@ -143,7 +145,7 @@ def add_dynamic(rng, case, tags):
 
 def fingerprint(case, events):
     h = hashlib.sha1()
-    h.update(json.dumps([case['cls'], case['base'], case['extras'], case['threads'], case.get('dyn')], sort_keys=True).encode())
+    h.update(json.dumps([case['cls'], case['base'], case['extras'], case['threads'], case.get('dyn'), case.get('restored')], sort_keys=True).encode())
     h.update(json.dumps(events).encode())
     return h.hexdigest()[:16]
 
@@ -281,7 +283,12 @@ def process(items):
     pend = []
     reqs = []
     for case, mk in items:
-        r = mk if isinstance(mk, locked.Run) else locked.Run(case).run(mk())
+        try:
+            r = mk if isinstance(mk, locked.Run) else locked.Run(case).run(mk())
+        except locked.NotLocked as e:
+            ex.evaluations += 1
+            ex.failures.append(runner.Failure('monitor', 'factory_returns_unlocked_class', case, {'class': str(e)}, None))
+            continue
         p = Pending(case, r)
         p.req_index = len(reqs)
         rq = requests_for(case, r)
@@ -292,7 +299,7 @@ def process(items):
     caches = {}
     for p in pend:
         key = json.dumps([p.case['cls'], p.case['base'], p.case['extras'], p.case['threads'], p.case.get('ignore'),
-                          p.case.get('queued'), p.case['nmodels'], p.case.get('dyn')], sort_keys=True)
+                          p.case.get('queued'), p.case['nmodels'], p.case.get('dyn'), p.case.get('restored')], sort_keys=True)
         cache = caches.setdefault(key, {})
         fs = judge(p.case, p.run, answers[p.req_index:p.req_index + p.nreq], cache)
         ex.evaluations += 1
@@ -305,6 +312,7 @@ def process(items):
                            ('machine_context', 'default' if not p.case['base'] else 'user'),
                            ('model_context', 'yes' if any(p.case['extras'].values()) else 'no'),
                            ('dynamic_models', str(len(p.case.get('dyn') or []))),
+                           ('restored_before_run', str(p.case.get('restored'))),
                            ('unjudged_events', str(sum(1 for c, _t in locked.all_calls(p.case) if c.get('unjudged')))),
                            ('blocked_steps', str(min(9, sum(1 for _t, k in p.run.ctl.steps if k == 'b')))),
                            ('raising_calls', str(min(5, sum(1 for o in p.run.outcome.values() if o[0] == 'exc')))),
@@ -403,6 +411,15 @@ CORPUS += [
 ]
 
 
+CORPUS += [
+    # the first users of a RESTORED machine (unpickled / deep-copied before the threads start) arrive together
+    {'cls': 'flat', 'base': [], 'nmodels': 2, 'ignore': False, 'queued': False, 'extras': {'0': [], '1': []}, 'dyn': [],
+     'restored': 'pickle', 'threads': [[_c(1, 'ev', [0, 'go'])], [_c(2, 'ev', [1, 'go'])]]},
+    {'cls': 'hsm', 'base': [], 'nmodels': 2, 'ignore': False, 'queued': False, 'extras': {'0': [['user', 5]], '1': []}, 'dyn': [],
+     'restored': 'deepcopy', 'threads': [[_c(1, 'trig', [0, 'go'])], [_c(2, 'dispatch', ['go'])], [_c(3, 'set_state', ['B', 1])]]},
+]
+
+
 def corpus_worker(seed, per):
     _alarm(900)
     rng = random.Random(seed)
@@ -459,7 +476,12 @@ def enum_worker(seed, bound, cap):
             batch = []
     while stack and seen < cap:
         prefix = stack.pop()
-        r = locked.Run(case).run(threads.ListPolicy(prefix))
+        try:
+            r = locked.Run(case).run(threads.ListPolicy(prefix))
+        except locked.NotLocked as e:
+            total.evaluations += 1
+            total.failures.append(runner.Failure('monitor', 'factory_returns_unlocked_class', case, {'class': str(e)}, None))
+            return total
         seen += 1
         chosen = [t for t, _k in r.ctl.steps]
         hist = r.ctl.runnable_hist
@@ -485,7 +507,10 @@ def enum_worker(seed, bound, cap):
 
 def run_replay(case):
     sched = case.get('schedule') or []
-    r = locked.Run(case).run(threads.ListPolicy(sched))
+    try:
+        r = locked.Run(case).run(threads.ListPolicy(sched))
+    except locked.NotLocked as e:
+        return None, [runner.Failure('monitor', 'factory_returns_unlocked_class', case, {'class': str(e)}, None)]
     answers = common.batch_driver(requests_for(case, r))
     return r, judge(case, r, answers, {})
 
@@ -546,6 +571,8 @@ def _shrink_steps(case):
             yield c
     if case.get('queued'):
         yield dict(copy.deepcopy(case), queued=False)
+    if case.get('restored'):
+        yield dict(copy.deepcopy(case), restored=None)
     s = case.get('schedule') or []
     for k in (0, len(s) // 4, len(s) // 2, (3 * len(s)) // 4, len(s) - 1):
         if 0 <= k < len(s):
@@ -563,7 +590,8 @@ def shrink_failure(f):
         r, fs = run_replay(small)
         for x in fs:
             if (x.kind, x.what, x.signature) == key:
-                x.details = dict(x.details, events=r.events, outcome={str(k): v for k, v in r.outcome.items()})
+                if r is not None:
+                    x.details = dict(x.details, events=r.events, outcome={str(k): v for k, v in r.outcome.items()})
                 return x
     except common.MachineryError:
         pass
@@ -578,8 +606,8 @@ class C06(runner.Check):
     theorems = ('TM.Locked.C06_mutex', 'TM.Locked.C06_no_overlap', 'TM.Locked.C06_serializable',
                 'TM.Locked.C06_reentrant_no_deadlock', 'TM.Locked.C06_contexts_held_in_order',
                 'TM.Locked.C06_registered_contexts', 'TM.Locked.C06_released_on_raise', 'TM.Locked.C06_snapshot_frame',
-                'TM.Locked.C06_shared_writes_in_window')
-    rule = ('thread programs on real LockedMachine / LockedHierarchicalMachine / LockedHierarchicalGraphMachine (mermaid) objects; hierarchical '
+                'TM.Locked.C06_shared_writes_in_window', 'TM.Locked.C06_locks_allocated_initially')
+    rule = ('thread programs on real (30% of them restored from pickle / deepcopy before the threads start; classes drawn through MachineFactory.get_predefined) LockedMachine / LockedHierarchicalMachine / LockedHierarchicalGraphMachine (mermaid) objects; hierarchical '
             'machines declare events locally inside a compound state (processed in a nested scope) and are triggered by attribute '
             'and by name (model.trigger(name)); (default and user supplied '
             'machine_context lists containing a mutex, model_context lists, 1-3 shared models): 2-4 threads x 1-3 calls '
@@ -645,9 +673,10 @@ class C06(runner.Check):
             payload = json.load(fh)
         case = payload.get('case', payload)
         r, fs = run_replay(case)
-        print('status=%s events=%d' % (r.ctl.status, len(r.events)))
-        for e in r.events:
-            print('  ', e)
+        if r is not None:
+            print('status=%s events=%d' % (r.ctl.status, len(r.events)))
+            for e in r.events:
+                print('  ', e)
         for f in fs:
             print('FAIL %s %s %s signature=%s' % (f.kind, f.what, json.dumps(f.details, default=str)[:600], f.signature))
         if not fs:
